@@ -1745,9 +1745,10 @@ func (schema *Schema) visitJSONString(settings *schemaValidationSettings, value 
 					return err
 				}
 				me = append(me, err)
+				cp = nil
 			}
 		}
-		if !cp.MatchString(value) {
+		if cp != nil && !cp.MatchString(value) {
 			err := &SchemaError{
 				Value:                 value,
 				Schema:                schema,
